@@ -18,6 +18,7 @@ struct Mut {
 };
 struct Inj { uint64_t t; std::vector<uint8_t> data; std::string note; };
 struct Stall { uint64_t t; int node; uint64_t dur; };
+struct InjRep { uint64_t t = 0, dt = 1, n = 0; std::vector<uint8_t> data; struct Step { size_t bit; unsigned w; uint64_t delta; }; std::vector<Step> steps; };  // one datagram, n copies
 struct InRep { uint64_t t = 0, dt = 1, n = 0; int node = 0; std::string kind; uint64_t seed = 1; };  // n stdin chunks generated on the fly (soak runs)
 
 struct Plan {
@@ -30,6 +31,7 @@ struct Plan {
     size_t qcap = 64, cantxq = 0, lstack = 0;  // lstack: stack of the listener limited to this many KiB (0 = the full 512)
     int64_t skew[4] = {0, 0, 0, 0};
     bool stdin_eof = false, o0 = false, ethpad = false, argorder = false;
+    bool longnames = false;  // interfaces are addressed by their 15-character names
     int stackfill = 0xA5;  // byte the task stacks are pre-filled with (what a never-written local reads)
     double read0 = 0;
     uint64_t clkgran = 1;
@@ -41,6 +43,7 @@ struct Plan {
     struct ClkJump { uint64_t t; int node; int64_t delta; };
     std::vector<ClkJump> clkjump;
     std::vector<InRep> inrep;
+    std::vector<InjRep> injrep;
     bool soak = false;
     struct Restart { uint64_t t; bool listener; };
     std::vector<Restart> restart;   // instants at which the (tunnel) talker or listener process is killed and started again
